@@ -90,6 +90,16 @@ CARRIERS = {
                                 {"k": "cpp_class", "doc": 1, "name": "Section"},
                                 {"k": "cpp_class", "doc": 1, "name": "Config"}, {"k": "cpp_attr", "doc": 1, "name": "inner_attr", "default": "1"},
                                 {"k": "cpp_member", "doc": 1, "name": "inner_get", "types": ["desc"], "params": ["out"]}],
+    # signatures far longer than any line width a writer might wrap at, top-level and nested in classes
+    "long_signature": lambda: [{"k": "function", "doc": 1, "params": [f"a_rather_long_parameter_name_{n}" for n in range(8)]},
+                               {"k": "close"},
+                               {"k": "cpp_class", "doc": 1},
+                               {"k": "cpp_member", "doc": 1, "types": ["desc"] * 6, "params": [f"member_parameter_long_name_{n}" for n in range(6)]},
+                               {"k": "close"},
+                               {"k": "cpp_class", "doc": 1},
+                               {"k": "cpp_constructor", "doc": 1, "types": ["int"] * 5, "params": [f"constructor_argument_number_{n}" for n in range(5)], "impl": "macro"},
+                               {"k": "close"}, {"k": "close"}, {"k": "close"},
+                               {"k": "ct_add_test", "doc": 1, "name": "a_test_with_a_name_" + "that_is_long_" * 8}],
     "module_doc": lambda: [{"k": "module", "name": "my.module", "doc": 1}, {"k": "function", "doc": 1, "params": []}],
     "module_doc_unnamed": lambda: [{"k": "module", "name": "", "doc": 1}, {"k": "set", "doc": 0}],
     "nothing_to_document": lambda: [{"k": "set", "doc": 0}, {"k": "generic", "doc": 0}, {"k": "if", "doc": 0}],
